@@ -12,6 +12,15 @@ func propertyTable() map[string]PropertyCfg {
 			},
 			NotDecided: []string{"'scales every cue's length by the slope' is implied only up to the 1 microsecond bound per boundary; not stated separately"},
 		},
+		"C17": {ID: "C17",
+			Assumptions: []string{
+				"io.Reader is modelled by a ghost byte stream (contracts/extern.gvc): Read may deliver any number of the remaining bytes, may return io.EOF with the last bytes or later, may fail; io.ReadFull as documented",
+				"assumed, not proved: bufio.Scanner produces a token sequence that is a function of the byte sequence when its split function is prefix-stable (the property proved by harness splitStable) -- this is the scanner's documented buffering algorithm; encoding/xml.Decoder and astits.Demuxer are delivery-independent",
+				"bytes.IndexAny(s, \"\\r\\n\"): least index of a CR or LF, or -1",
+			},
+			NotDecided: []string{"that the parse result as a whole is a function of the bytes follows from the three mechanisms only with the assumptions above; the readers' bodies above the scanner/block reader are deterministic sequential code (no other input source: see the reader-flow obligations)"},
+			Special: c17Special,
+		},
 		"C16": {ID: "C16",
 			Assumptions: []string{
 				"extern laws: strconv.Itoa(n) = itoa(n) (injective uninterpreted decimal rendering with length by range), strconv.FormatFloat(v,'f',0,64) = itoa(int(v)) for integral 0 <= v < 2^53, astikit.StrPad(s,'0',n,PadLeft) = strpadleft(s,48,n) of length max(len s, n), time.Duration.Nanoseconds() = int64(d), math.Pow(10,0)=1 and math.Pow(10,1)=10",
